@@ -87,6 +87,7 @@ func cacheInvoke(iface, method string) func(ssa.CallInstruction) bool {
 
 func runC07(c *Ctx) {
 	R := c.R
+	defer c.include("C07.S1", "C18", []string{"C18.R4"}, "a portal keeps that Bind's parameters and result formats: their containers are allocated per message", 2)
 	R.Technique = "ownership / provenance rules: allocation-site freshness, who-may-write on Statement/Portal fields, map-update dominance, access-path identity of the values handed to the statement function"
 	R.Explanation = "Decides the structural conditions under which names resolve to the latest definition, per connection, for every history and schedule: (R1) each connection's caches come from factory calls made in serve, the default factories and Set/Bind allocate fresh objects, no package-level variable and no field of the shared Server holds statements, portals or caches, and connection code never stores into the Server; " +
 		"(R2) Statement and Portal fields are written only while the object is being constructed (immutability after publication), Set stores a new Statement on every call - so a portal keeps the definition it was bound to even if the name is parsed again; (R3) Set/Bind update the map under the given name on every successful path without an existence test (re-use replaces), Get/Execute look the given name up; " +
@@ -122,6 +123,17 @@ func runC07(c *Ctx) {
 			}
 		}
 		R.Floor("C07.R1", "cache stores into the per-connection Session", n, 2)
+		// the Session that runs the command loop is allocated for this connection on every path (not taken from a pool,
+		// a field or a package variable: a recycled Session brings the previous connection's statements and portals)
+		nLoop := 0
+		cc := c.P.Method("wire", "Session", "consumeCommands")
+		for fn := range c.serveRegion() {
+			for _, ci := range callsIn(fn, calleeIs(cc)) {
+				nLoop++
+				R.Check(c.freshAlloc(ci.Common().Args[0], 4), "C07.R1", "serve:session-is-fresh", c.at(ci), "the Session that serves a connection is allocated for that connection", "the receiver of the command loop is a new allocation on every path", "the Session handed to the command loop is not a fresh allocation on every path (e.g. recycled through a sync.Pool): names, statements and portals of an earlier connection are visible to this one")
+			}
+		}
+		R.Floor("C07.R1", "command-loop calls in the serve region", nLoop, 1)
 	}
 	for _, fnName := range []string{"DefaultStatementCacheFn", "DefaultPortalCacheFn"} {
 		if fn := c.mustFunc("C07.R1", "wire", fnName); fn != nil {
@@ -289,35 +301,52 @@ func runC07(c *Ctx) {
 	}
 	if hd := c.mustMethod("C07.R4", "wire", "Session", "handleDescribe"); hd != nil {
 		R.Analysed(fname(hd))
-		sinks := c.describeSinks(hd)
 		nSink := 0
 		gs := getStrings(hd)
-		var name ssa.Value
+		var msgName ssa.Value
 		if len(gs) >= 1 {
-			name = resultOf(gs[len(gs)-1], 0)
+			msgName = resultOf(gs[len(gs)-1], 0)
 		}
-		for _, kind := range []string{"StatementCache", "PortalCache"} {
-			for _, ci := range callsIn(hd, cacheInvoke(kind, "Get")) {
-				call := ci.(*ssa.Call)
-				R.Check(name != nil && call.Call.Args[1] == name, "C07.R5", "Describe:"+kind+":name", c.at(call), "Describe looks up the name carried by the message", "lookup name is the message's string field", "the lookup name is not the message's name field")
-				obj := resultOf(call, 0)
-				for _, w := range sinks {
-					if !anyDominates(nilEdges(obj, false), w.where) {
-						continue
-					}
-					nSink++
-					rc, pc := pathOf(w.cols)
-					if kind == "PortalCache" {
-						rf, pf := pathOf(w.fm)
-						R.Check(rc == obj && pc == ".statement.columns" && rf == obj && pf == ".formats", "C07.R4", "Describe-portal:uses-looked-up-portal", c.at(w.at), "Describe-portal announces the looked-up portal's statement columns with that Bind's result formats", "writeColumnDescription(portal.formats, portal.statement.columns)", "the description is not built from the looked-up portal")
-					} else {
-						R.Check(rc == obj && pc == ".columns" && core.IsNilConst(w.fm), "C07.R4", "Describe-statement:uses-looked-up-statement", c.at(w.at), "Describe-statement announces the looked-up statement's columns (formats unknown yet)", "writeColumnDescription(nil, statement.columns)", "the description is not built from the looked-up statement")
+		for _, root := range c.describeRoots() {
+			hdTop := hd
+			hd := root
+			sinks := c.describeSinks(hd)
+			name := msgName
+			if hd != hdTop {
+				// a per-kind helper: the name is the parameter that receives the message's name at the call
+				R.Analysed(fname(hd))
+				name = nil
+				for _, w := range callsIn(hdTop, calleeIs(hd)) {
+					for i, a := range w.Common().Args {
+						if msgName != nil && a == msgName && i < len(hd.Params) {
+							name = hd.Params[i]
+						}
 					}
 				}
-				if kind == "StatementCache" {
-					for _, s := range c.paramDescriptionSites() {
-						for i, w := range s.at {
-							R.Check(s.countRoot[i] == obj && s.countPath[i] == ".parameters", "C07.R4", "Describe-statement:parameter-list", c.at(w), "ParameterDescription announces the looked-up statement's declared parameter types", "writeParameterDescription(statement.parameters)", "the parameter list announced is not the looked-up statement's")
+			}
+			for _, kind := range []string{"StatementCache", "PortalCache"} {
+				for _, ci := range callsIn(hd, cacheInvoke(kind, "Get")) {
+					call := ci.(*ssa.Call)
+					R.Check(name != nil && call.Call.Args[1] == name, "C07.R5", "Describe:"+kind+":name", c.at(call), "Describe looks up the name carried by the message", "lookup name is the message's string field", "the lookup name is not the message's name field")
+					obj := resultOf(call, 0)
+					for _, w := range sinks {
+						if !anyDominates(nilEdges(obj, false), w.where) {
+							continue
+						}
+						nSink++
+						rc, pc := pathOf(w.cols)
+						if kind == "PortalCache" {
+							rf, pf := pathOf(w.fm)
+							R.Check(rc == obj && pc == ".statement.columns" && rf == obj && pf == ".formats", "C07.R4", "Describe-portal:uses-looked-up-portal", c.at(w.at), "Describe-portal announces the looked-up portal's statement columns with that Bind's result formats", "writeColumnDescription(portal.formats, portal.statement.columns)", "the description is not built from the looked-up portal")
+						} else {
+							R.Check(rc == obj && pc == ".columns" && core.IsNilConst(w.fm), "C07.R4", "Describe-statement:uses-looked-up-statement", c.at(w.at), "Describe-statement announces the looked-up statement's columns (formats unknown yet)", "writeColumnDescription(nil, statement.columns)", "the description is not built from the looked-up statement")
+						}
+					}
+					if kind == "StatementCache" {
+						for _, s := range c.paramDescriptionSites() {
+							for i, w := range s.at {
+								R.Check(s.countRoot[i] == obj && s.countPath[i] == ".parameters", "C07.R4", "Describe-statement:parameter-list", c.at(w), "ParameterDescription announces the looked-up statement's declared parameter types", "writeParameterDescription(statement.parameters)", "the parameter list announced is not the looked-up statement's")
+							}
 						}
 					}
 				}
@@ -729,4 +758,35 @@ func (c *Ctx) constructOnly(rule, desc, consequence string) {
 		}
 	}
 	R.Floor(rule, "field stores constructing Statement / Portal", nStores, 6)
+}
+
+// freshAlloc: v is, on every path, an object allocated by the code that produced it - an allocation, a merge of such,
+// or the result of a function of the scope that returns one.
+func (c *Ctx) freshAlloc(v ssa.Value, depth int) bool {
+	if depth == 0 {
+		return false
+	}
+	switch x := core.Strip(v).(type) {
+	case *ssa.Alloc:
+		return true
+	case *ssa.Phi:
+		for _, e := range x.Edges {
+			if !c.freshAlloc(e, depth-1) {
+				return false
+			}
+		}
+		return len(x.Edges) > 0
+	case *ssa.Call:
+		callee := core.StaticCallee(x)
+		if callee == nil || !c.P.InScope(callee) || len(returns(callee)) == 0 {
+			return false
+		}
+		for _, r := range returns(callee) {
+			if len(r.Results) != 1 || !c.freshAlloc(r.Results[0], depth-1) {
+				return false
+			}
+		}
+		return true
+	}
+	return false
 }
